@@ -1,6 +1,7 @@
 import LibInj.Bytes
 import LibInj.Gen.Keywords
 import Std.Data.HashMap
+import LibInj.Sqli.KwTree
 /-! Keyword / fingerprint look-up (`searchKeyword` in sqli_helpers.go) over the regenerated table.
 
 The logical definition is a linear search of `Gen.keywords`, which is what the kernel evaluates in
@@ -116,12 +117,184 @@ theorem lookupKw_eq_fast_apply (l n : Nat) : lookupKw l n = lookupKwFast l n := 
 @[csimp] theorem lookupKw_eq_fast : @lookupKw = @lookupKwFast := by
   funext l n; exact lookupKw_eq_fast_apply l n
 
+/-! ### tree search = linear search -/
+
+theorem lookupIn_append (xs ys : List (Nat × Nat × Nat)) (l n : Nat) :
+    lookupIn (xs ++ ys) l n = (match lookupIn xs l n with | some v => some v | none => lookupIn ys l n) := by
+  induction xs with
+  | nil => rfl
+  | cons x xs ih =>
+    obtain ⟨l', n', v⟩ := x
+    simp only [List.cons_append, lookupIn]
+    split
+    · rfl
+    · exact ih
+
+theorem strictSorted_append_left : ∀ (xs ys : List (Nat × Nat × Nat)), strictSorted (xs ++ ys) = true → strictSorted xs = true
+  | [], _, _ => rfl
+  | [_], _, _ => rfl
+  | a :: b :: t, ys, h => by
+    have h' : strictSorted (a :: b :: (t ++ ys)) = true := h
+    obtain ⟨hab, ht⟩ := strictSorted_cons h'
+    have ih := strictSorted_append_left (b :: t) ys ht
+    simp only [strictSorted, Bool.and_eq_true, Bool.or_eq_true, Nat.blt_eq]
+    simp only [strictSorted, Bool.and_eq_true, Bool.or_eq_true, Nat.blt_eq] at h'
+    exact ⟨h'.1, ih⟩
+
+theorem strictSorted_append_right : ∀ (xs ys : List (Nat × Nat × Nat)), strictSorted (xs ++ ys) = true → strictSorted ys = true
+  | [], _, h => h
+  | a :: t, ys, h => strictSorted_append_right t ys (strictSorted_tail (t ++ ys) a h)
+
+/-- every element of `xs` is below every element of `ys` in a sorted `xs ++ ys` -/
+theorem strictSorted_append_lt : ∀ (xs ys : List (Nat × Nat × Nat)), strictSorted (xs ++ ys) = true →
+    ∀ x ∈ xs, ∀ y ∈ ys, keyLt x y
+  | [], _, _, _, hx, _, _ => by cases hx
+  | a :: t, ys, h, x, hx, y, hy => by
+    rcases List.mem_cons.mp hx with rfl | hx
+    · exact strictSorted_head_lt (t ++ ys) _ h y (List.mem_append_right _ hy)
+    · exact strictSorted_append_lt t ys (strictSorted_tail (t ++ ys) a h) x hx y hy
+
+theorem lookupIn_none_of_lt (t : List (Nat × Nat × Nat)) (l n : Nat) (h : ∀ e ∈ t, keyLt (l, n, 0) e) : lookupIn t l n = none := by
+  induction t with
+  | nil => rfl
+  | cons e t ih =>
+    obtain ⟨l', n', v⟩ := e
+    have he := h (l', n', v) List.mem_cons_self
+    simp only [lookupIn]
+    split
+    · rename_i hc
+      simp only [Bool.and_eq_true] at hc
+      have h1 := Nat.eq_of_beq_eq_true hc.1
+      have h2 := Nat.eq_of_beq_eq_true hc.2
+      unfold keyLt at he; simp only at he; omega
+    · exact ih (fun e he => h e (List.mem_cons_of_mem _ he))
+
+theorem lookupIn_none_of_gt (t : List (Nat × Nat × Nat)) (l n : Nat) (h : ∀ e ∈ t, keyLt e (l, n, 0)) : lookupIn t l n = none := by
+  induction t with
+  | nil => rfl
+  | cons e t ih =>
+    obtain ⟨l', n', v⟩ := e
+    have he := h (l', n', v) List.mem_cons_self
+    simp only [lookupIn]
+    split
+    · rename_i hc
+      simp only [Bool.and_eq_true] at hc
+      have h1 := Nat.eq_of_beq_eq_true hc.1
+      have h2 := Nat.eq_of_beq_eq_true hc.2
+      unfold keyLt at he; simp only at he; omega
+    · exact ih (fun e he => h e (List.mem_cons_of_mem _ he))
+
+theorem blt_false {x a : Nat} (h : Nat.blt x a = false) : ¬ x < a := by
+  intro hlt
+  rw [(Nat.blt_eq).mpr hlt] at h
+  cases h
+
+theorem KwTree.lookup_eq : ∀ (t : KwTree) (x y : Nat), strictSorted t.toList = true → t.lookup x y = lookupIn t.toList x y
+  | .leaf, _, _, _ => rfl
+  | .node l a b v r, x, y, hs => by
+    have hs' : strictSorted (l.toList ++ (a, b, v) :: r.toList) = true := hs
+    have hl := strictSorted_append_left _ _ hs'
+    have hr0 := strictSorted_append_right _ _ hs'
+    have hr := strictSorted_tail _ _ hr0
+    have ihl := KwTree.lookup_eq l x y hl
+    have ihr := KwTree.lookup_eq r x y hr
+    have hlt_l : ∀ e ∈ l.toList, keyLt e (a, b, v) := fun e he => strictSorted_append_lt _ _ hs' e he _ List.mem_cons_self
+    have hlt_r : ∀ e ∈ r.toList, keyLt (a, b, v) e := strictSorted_head_lt _ _ hr0
+    simp only [KwTree.lookup, KwTree.toList]
+    rw [lookupIn_append]
+    cases h1 : (Nat.blt x a || (Nat.beq x a && Nat.blt y b))
+    · simp only [cond_false]
+      have hnl : lookupIn l.toList x y = none := by
+        apply lookupIn_none_of_gt
+        intro e he
+        have := hlt_l e he
+        simp only [Bool.or_eq_false_iff, Bool.and_eq_false_iff] at h1
+        have h1a : ¬ x < a := blt_false h1.1
+        unfold keyLt at this ⊢; simp only at this ⊢
+        rcases h1.2 with h2 | h2
+        · have : x ≠ a := by intro e; rw [e, Nat.beq_refl] at h2; cases h2
+          omega
+        · have : ¬ y < b := blt_false h2
+          by_cases hxa : x = a
+          · cases h12 : Nat.beq x a && Nat.beq y b <;> omega
+          · omega
+      rw [hnl]
+      simp only [lookupIn]
+      cases h2 : (Nat.beq x a && Nat.beq y b)
+      · simp only [cond_false, Bool.false_eq_true, ↓reduceIte]; exact ihr
+      · simp only [cond_true, ↓reduceIte]
+    · simp only [cond_true]
+      rw [ihl]
+      have hlt : keyLt (x, y, 0) (a, b, v) := by
+        simp only [Bool.or_eq_true, Bool.and_eq_true, Nat.blt_eq] at h1
+        unfold keyLt; simp only
+        rcases h1 with h | ⟨h, h'⟩
+        · exact Or.inl h
+        · exact Or.inr ⟨Nat.eq_of_beq_eq_true h, h'⟩
+      have hnr : lookupIn ((a, b, v) :: r.toList) x y = none := by
+        apply lookupIn_none_of_lt
+        intro e he
+        rcases List.mem_cons.mp he with rfl | he
+        · exact hlt
+        · exact keyLt_trans hlt (hlt_r e he)
+      rw [hnr]
+      cases lookupIn l.toList x y <;> rfl
+
+theorem lookupForest_eq : ∀ (ts : List KwTree) (x y : Nat), strictSorted (forestToList ts) = true →
+    lookupForest ts x y = lookupIn (forestToList ts) x y
+  | [], _, _, _ => rfl
+  | t :: ts, x, y, hs => by
+    have hs' : strictSorted (t.toList ++ forestToList ts) = true := hs
+    simp only [lookupForest, forestToList]
+    rw [lookupIn_append, KwTree.lookup_eq t x y (strictSorted_append_left _ _ hs'),
+      lookupForest_eq ts x y (strictSorted_append_right _ _ hs')]
+    cases lookupIn t.toList x y <;> rfl
+
+/-- Bool-valued equality of two tables (kernel-friendly) -/
+def eqEntries : List (Nat × Nat × Nat) → List (Nat × Nat × Nat) → Bool
+  | [], [] => true
+  | a :: as, b :: bs => Nat.beq a.1 b.1 && Nat.beq a.2.1 b.2.1 && Nat.beq a.2.2 b.2.2 && eqEntries as bs
+  | _, _ => false
+
+theorem eqEntries_sound : ∀ (a b : List (Nat × Nat × Nat)), eqEntries a b = true → a = b
+  | [], [], _ => rfl
+  | [], _ :: _, h => by cases h
+  | _ :: _, [], h => by cases h
+  | (a1, a2, a3) :: as, (b1, b2, b3) :: bs, h => by
+    simp only [eqEntries, Bool.and_eq_true] at h
+    obtain ⟨⟨⟨h1, h2⟩, h3⟩, h4⟩ := h
+    rw [Nat.eq_of_beq_eq_true h1, Nat.eq_of_beq_eq_true h2, Nat.eq_of_beq_eq_true h3, eqEntries_sound as bs h4]
+
+set_option maxRecDepth 200000 in
+/-- table fact, re-checked by the kernel on every build: the regenerated forest lists exactly the regenerated table -/
+theorem kwTrees_toList : forestToList Gen.kwTrees = Gen.keywords :=
+  eqEntries_sound _ _ (by decide +kernel)
+
+/-- look-up used by the executable model (and by kernel evaluation): tree search -/
+def lookupKwT (l n : Nat) : Option Nat := lookupForest Gen.kwTrees l n
+
+theorem lookupKwT_eq (l n : Nat) : lookupKwT l n = lookupKw l n := by
+  unfold lookupKwT lookupKw
+  rw [← kwTrees_toList]
+  exact lookupForest_eq _ _ _ (by rw [kwTrees_toList]; exact keywords_strictSorted)
+
 /-- `searchKeyword(key, sqlKeywords)`: class byte, or 0 -/
 def searchKeyword (w : Bytes) : UInt8 :=
+  let u := goUpper w
+  match lookupKwT u.length (keyNat u) with
+  | some v => v.toUInt8
+  | none => 0
+
+/-- the specification form of `searchKeyword`: linear search of the sorted table -/
+def searchKeywordSpec (w : Bytes) : UInt8 :=
   let u := goUpper w
   match lookupKw u.length (keyNat u) with
   | some v => v.toUInt8
   | none => 0
+
+theorem searchKeyword_eq (w : Bytes) : searchKeyword w = searchKeywordSpec w := by
+  unfold searchKeyword searchKeywordSpec
+  simp only [lookupKwT_eq]
 
 /-- `toUpperCmp(a, b)` with `a` an ASCII literal -/
 def toUpperCmp (a : Bytes) (b : Bytes) : Bool := a == goUpper b
